@@ -40,6 +40,8 @@ def required_cells(tier):
     req["promotion"] = 125
     for t in ("int", "float", "Fraction"):
         req["numeric:" + t] = 200
+    for rel in ("generic", "parallel", "antiparallel", "perpendicular"):
+        req["numeric-relation:" + rel] = 200
     req["constants"] = 1
     return req
 
@@ -64,7 +66,23 @@ def cases(rng, budget, widx, nworkers, tier):
             if t == "int":
                 mag = abs(mag)
             vals = [[rng.randint(-99, 99) for _ in range(3)] for _ in range(2)]
-            yield {"k": "numeric", "t": t, "mag": mag, "vals": vals}
+            rel = "generic"
+            rr = rng.random()
+            if rr < 0.15:
+                kk = rng.choice((1, 2, 3, 7))
+                vals[1] = [kk * x for x in vals[0]]
+                rel = "parallel"
+            elif rr < 0.3:
+                kk = rng.choice((-1, -2, -3, -7))
+                vals[1] = [kk * x for x in vals[0]]
+                rel = "antiparallel"
+            elif rr < 0.4:
+                w = [rng.randint(-9, 9) for _ in range(3)]
+                c = K.cross(vals[0], w)
+                if any(c):
+                    vals[1] = list(c)
+                    rel = "perpendicular"
+            yield {"k": "numeric", "t": t, "mag": mag, "vals": vals, "rel": rel}
 
 
 def _mkval(t, n, d=1):
@@ -238,7 +256,7 @@ def judge(case):
         return mu.result()
     # numeric
     t = case["t"]
-    mu.cell("numeric:" + t)
+    mu.cell("numeric:" + t, "numeric-relation:" + case.get("rel", "generic"))
     mag = case["mag"]
     sc = 10 ** mag if mag >= 0 else F(1, 10 ** (-mag))
     vs = []
